@@ -179,6 +179,12 @@ func fieldByStep(v reflect.Value, step string) (reflect.Value, reflect.StructFie
 	return reflect.Value{}, reflect.StructField{}, false
 }
 
+// FieldByStep is the exported form of fieldByStep.
+func FieldByStep(v reflect.Value, step string) (reflect.Value, bool) {
+	f, _, ok := fieldByStep(v, step)
+	return f, ok
+}
+
 func isOrderedMapPtr(t reflect.Type) bool {
 	return t.Kind() == reflect.Ptr && t.Elem().Kind() == reflect.Struct && strings.HasSuffix(t.Elem().Name(), "_OrderedMap")
 }
@@ -767,20 +773,10 @@ func SetLeafList(root reflect.Value, path Path, vals []string, pkg *reg.Pkg) err
 	return nil
 }
 
-// Build populates root (pointer to an empty generated struct) with tree t. Containers,
-// then list entries (in order), then leaves.
+// Build populates root (pointer to an empty generated struct) with tree t. List entries
+// (in order, outer lists first), then containers, then leaves.
 func Build(t *Tree, root interface{}, pkg *reg.Pkg) error {
 	rv := reflect.ValueOf(root)
-	var cs []string
-	for c := range t.Conts {
-		cs = append(cs, c)
-	}
-	sort.Strings(cs)
-	for _, c := range cs {
-		if _, err := Ensure(rv, splitPath(c), pkg); err != nil {
-			return fmt.Errorf("container %s: %v", Pretty(c), err)
-		}
-	}
 	var ls []string
 	for l := range t.Ents {
 		ls = append(ls, l)
@@ -797,6 +793,16 @@ func Build(t *Tree, root interface{}, pkg *reg.Pkg) error {
 			if _, err := Ensure(rv, append(splitPath(l), k), pkg); err != nil {
 				return fmt.Errorf("entry %s%s: %v", Pretty(l), k, err)
 			}
+		}
+	}
+	var cs []string
+	for c := range t.Conts {
+		cs = append(cs, c)
+	}
+	sort.Strings(cs)
+	for _, c := range cs {
+		if _, err := Ensure(rv, splitPath(c), pkg); err != nil {
+			return fmt.Errorf("container %s: %v", Pretty(c), err)
 		}
 	}
 	for p, v := range t.Leaves {
